@@ -242,6 +242,19 @@ func ZZ_C16_Converters() {
 		check("attached")
 		imp("early.pcap")
 		check("reset")
+	case 7: // converter output is requested through a view that was taken before an import extended the stream
+		imp("a.pcap")
+		zzSettle(mgr)
+		held := mgr.GetView()
+		sc, err := held.Stream(0)
+		zz.Assert(err == nil && sc.Stream() != nil, "scenario.view-has-stream-0")
+		imp("c0.pcap")
+		zzSettle(mgr)
+		_, err = sc.Data("conv") // not cached: converted now, from the view's version of the stream
+		zz.Assert(err == nil, "view.converter-data.noerr")
+		held.Release()
+		zzInService(mgr, func() {})
+		check("converted-through-an-older-view")
 	case 5: // the converter is restarted: everything is converted again
 		imp("a.pcap")
 		zzSettle(mgr)
